@@ -41,11 +41,12 @@ func main() {
 		"reader ρ = chunking {one, 1, 7, 4096, 1 MiB+1, random, bytes.Reader} × (0,nil) reads × (n,EOF) on last chunk × injected error before/at/after Size (alone or with the last chunk) × stream {as is, truncated, extended, one bit flipped, empty}; " +
 		"store kind ∈ {memory store, cas.Memory behind LimitStorage, cas.Proxy with memory / size-limited / OCI cache, oci.Store, oci.Storage, file store named file, file store fallback, ReadAll, FetchAll, VerifyReader Read*/Verify plans, ioutil.CopyBuffer}), " +
 		"for the file store's named file additionally a file already present at the name's path (none | longer | shorter | equal length | empty; a fresh store is opened on the directory; after an accepted push the named and the plain descriptor must fetch exactly the pushed bytes); " +
+		"after an accepted push FetchAll with the same digest and a larger / smaller / zero size must fail on the store and on fs.FS / tar read-only views of an OCI layout; FetchAll is also driven over *os.File readers; injected errors are sticky or one-shot; " +
 		"followed on push stores by good-after-refused or corrupt-after-accepted pushes; oracle predicates prefixOK/exact/trailing are computed from (stream, fault offset, digest string, size) with the standard library's hashes. " +
 		"Concurrent case = 0–3 good, 1–4 bad (corrupt, truncated, failing mid-way), 0–1 trailing pushers of one digest on one store plus 2 re-hashing fetchers. " +
 		"distinct = (descriptor class, primary reader class, store kind) resp. (store, #good, bad kinds, size class); non-trivial = sequential: every case except exact descriptor + unmodified stream + no fault; concurrent: at least two pushes overlapped (event order)")
 	r.Assume("a digest algorithm is 'supported' iff go-digest can verify it in this build (sha256, sha384, sha512); md5, sha1, sha224, blake3, sha3-256 and case variants are unsupported")
-	r.Assume("Push outcomes are not judged (only consistency is) when the first Size bytes match and the reader then delivers more bytes or fails; ReadAll-family outcomes are not judged when exactly Size matching bytes are followed by a read error instead of EOF")
+	r.Assume("Push outcomes are not judged (only consistency is) when the first Size bytes match and the reader then delivers more bytes or fails on a later read; a non-EOF error reported by the very read that delivers the last of the Size bytes (sticky or one-shot) is a failing reader: Push on a store must refuse it (for cas.Proxy the cache's reader is the pipe, which does not fail: unjudged). ReadAll-family outcomes are not judged when exactly Size matching bytes come with or are followed by a read error instead of EOF (their clause speaks of length, digest and trailing bytes only)")
 	r.Assume("a push whose descriptor size exceeds the wrapper's push limit may be refused even when exact")
 	r.Assume("files left under ingest/ and partial files of the file store are recorded, not judged (the statement speaks of blobs/)")
 
